@@ -1997,10 +1997,22 @@ def term_types(W, body):
     for l, sites_ in pv.defsites.items():
         for s_ in sites_:
             t = pv.def_term(s_)
-            out.setdefault(repr(t), body.locals[l]["ty"])
+            out.setdefault(repr(t), _deref_ty(body.locals[l]["ty"]))
     for i in range(1, body.arg_count + 1):
-        out[repr(pv.local_term(i))] = body.locals[i]["ty"]
+        out[repr(pv.local_term(i))] = _deref_ty(body.locals[i]["ty"])
     return out
+
+
+def _deref_ty(ty):
+    """Terms are transparent for borrows (`&x` reads as x): so is the type attached to a term."""
+    while ty.startswith("&"):
+        ty = ty[1:]
+        if ty.startswith("'") and " " in ty:
+            ty = ty.split(" ", 1)[1]
+        if ty.startswith("mut "):
+            ty = ty[4:]
+        ty = ty.lstrip()
+    return ty
 
 
 EXPECTED_TARGET = {"for_days": "snapshot_days", "for_versions_since": "snapshot_versions"}
